@@ -205,3 +205,90 @@ func H_C17_lists(t, w, pcap int) {
 	vAssert("more-indicator", l.More() == (cnt > pcap))
 	vReach("list-end")
 }
+
+// H_C17_shape: completeness - a well-formed list built by construction
+// ("n1=v1 SEP n2 SEP n3="q..."" + end) from symbolic bytes of the documented
+// character set is accepted and reported exactly: three parameters, in order,
+// with exactly the names and values written. fs as in c17flags.
+func H_C17_shape(fs, w int) {
+	flags := c17flags[fs]
+	uriParam := flags&POptTokURIParamF != 0
+	sep := byte(';')
+	if flags&(POptParamAmpSepF|POptTokURIHdrF) != 0 {
+		sep = '&'
+	}
+	tokc := func(c byte) bool {
+		// the specials '&' '?' are separators / terminators in some modes and
+		// are exercised by H_C17_tok; here: plain name / value characters
+		return refTokChar(c, uriParam) && c != '&' && c != '?'
+	}
+	var b []byte
+	n1s := len(b)
+	n1 := vBytes(w)
+	for i := range n1 {
+		vAssume(tokc(n1[i]))
+	}
+	b = append(b, n1...)
+	n1e := len(b)
+	b = append(b, '=')
+	v1s := len(b)
+	v1 := vBytes(w)
+	for i := range v1 {
+		vAssume(tokc(v1[i]))
+	}
+	b = append(b, v1...)
+	v1e := len(b)
+	b = append(b, sep)
+	if vBool() {
+		b = append(b, ' ')
+	}
+	n2s := len(b)
+	n2 := vBytes(1)
+	vAssume(tokc(n2[0]))
+	b = append(b, n2...)
+	n2e := len(b)
+	if vBool() {
+		b = append(b, '\t')
+	}
+	b = append(b, sep)
+	n3s := len(b)
+	b = append(b, 'k')
+	n3e := len(b)
+	b = append(b, '=', '"')
+	q := vBytes(2)
+	for i := range q {
+		vAssume(q[i] != '"' && q[i] != '\\' && q[i] != '\r' && q[i] != '\n' && q[i] != 0x7f && (q[i] >= ' ' || q[i] == '\t'))
+	}
+	b = append(b, q...)
+	b = append(b, '"')
+	v3s, v3e := n3e+1, len(b)
+	end := len(b)
+	if flags&POptInputEndF == 0 {
+		b = append(b, '\r', '\n', 'X')
+	}
+	want := [3][4]int{{n1s, n1e, v1s, v1e}, {n2s, n2e, 0, 0}, {n3s, n3e, v3s, v3e}}
+	var prm PTokParam
+	offs := 0
+	for k := 0; k < 3; k++ {
+		prm.Reset()
+		o, e := ParseTokenParam(b, offs, &prm, flags)
+		vObs("o", o)
+		vObs("e", int(e))
+		if k < 2 {
+			vAssert("more-values-follow", e == ErrHdrMoreValues)
+		} else {
+			vAssert("list-ends", vOr(e == ErrHdrEOH, e == ErrHdrOk) && o >= end && o <= len(b))
+		}
+		if e != ErrHdrMoreValues && e != ErrHdrEOH && e != ErrHdrOk {
+			return
+		}
+		vAssert("name-as-written", pfIs(prm.Name, want[k][0], want[k][1]))
+		if want[k][3] > 0 {
+			vAssert("value-as-written", pfIs(prm.Val, want[k][2], want[k][3]))
+		} else {
+			vAssert("no-value", prm.Val.Len == 0)
+		}
+		offs = o
+	}
+	vReach("end")
+}
